@@ -949,7 +949,97 @@ func c12Batch(c *rt.C, decls []*c12Decl, class string) {
 	}
 }
 
+// c12EntityKeys: the keys of an entity are declared once and compiled into the Keys message and into the requests of
+// the generated query service; a primary key is required wherever it appears, whatever its format.
+func c12EntityKeys(c *rt.C) {
+	validator, err := protovalidate.New()
+	if err != nil {
+		panic("harness: protovalidate.New: " + err.Error())
+	}
+	values := map[string][2]string{ // format -> {valid value, empty}
+		"":         {"anything", ""},
+		"informal": {"some-key", ""},
+		"id62":     {"0123456789ABCDEFabcdef", ""},
+		"uuid":     {"123e4567-e89b-12d3-a456-426614174000", ""},
+	}
+	for _, kf := range []string{"", "informal", "id62", "uuid"} {
+		for _, second := range []bool{false, true} {
+			e := &jEntity{Name: "Widget", Keys: []*jF{fld("widgetId", tKeyF(kf).with(func(t *jT) { t.Primary = pB(true) }))}, Data: []*jF{fld("name", tScalar(kString))}, Statuses: []string{"ACTIVE"},
+				Events: []*jEvent{{Name: "Created"}}}
+			if second {
+				e.Keys = append(e.Keys, fld("partId", tKeyF(kf).with(func(t *jT) { t.Primary = pB(true) })))
+			}
+			b := &jBundle{Files: []*jFile{{Path: "ent/v1/widget.j5s", Pkg: "ent.v1", Elems: []*jElem{{Entity: e}}}}}
+			src := b.sources()
+			id := fmt.Sprintf("entity-key/%s/keys=%d", kf, len(e.Keys))
+			cp, err := compileBundlePackage(newMemBundle(src), "ent.v1")
+			if err != nil {
+				c.Feature("c12:compile-failed/" + id + "/" + errSig(err))
+				continue
+			}
+			printed, err := printPackage(cp)
+			if err != nil {
+				c.Event("package_does_not_print")
+				continue
+			}
+			ct, err := compileProtoText(printed)
+			if err != nil {
+				c.Event("printed_package_does_not_compile")
+				continue
+			}
+			for _, full := range []string{"ent.v1.WidgetKeys", "ent.v1.service.WidgetGetRequest", "ent.v1.service.WidgetEventsRequest"} {
+				md := ct.message(full)
+				if md == nil {
+					c.Feature("c12:entity-message-missing/" + full)
+					continue
+				}
+				for _, k := range e.Keys {
+					fd := md.Fields().ByJSONName(k.Name)
+					if fd == nil {
+						c.Feature("c12:entity-key-missing/" + full)
+						continue
+					}
+					for vi, val := range values[kf] {
+						m := dynamicpb.NewMessage(md)
+						// the other keys hold valid values
+						for _, o := range e.Keys {
+							if ofd := md.Fields().ByJSONName(o.Name); ofd != nil {
+								m.Set(ofd, protoreflect.ValueOfString(values[kf][0]))
+							}
+						}
+						if val == "" {
+							m.Clear(fd)
+						} else {
+							m.Set(fd, protoreflect.ValueOfString(val))
+						}
+						want := vi == 0
+						var verr error
+						c.Input([]byte(id + " " + full + " " + k.Name))
+						ok, pv, fn, _ := rt.Guard(func() { verr = validator.Validate(m) })
+						c.EndBudget()
+						c.Eval(rt.Hash(id, full, k.Name, val), true)
+						if !ok {
+							c.Violate("validator-panic/"+fn, fmt.Sprintf("validating %s panicked: %v", full, pv), map[string]any{"source": src["ent/v1/widget.j5s"]})
+							continue
+						}
+						if got := verr == nil; got != want {
+							what := map[bool]string{true: "accepted", false: "rejected"}
+							c.Violate(fmt.Sprintf("verdict/entity-key/%s-but-should-be-%s", what[got], what[want]),
+								fmt.Sprintf("%s: primary key %s (format %q) of %s with value %q is %s (%v); a primary key is required wherever the entity's keys are compiled to", id, k.Name, kf, full, val, what[got], verr),
+								map[string]any{"source": src["ent/v1/widget.j5s"], "message": full, "key": k.Name, "value": val})
+						} else {
+							c.Event("entity_key_verdicts_agree")
+						}
+					}
+				}
+			}
+			c.Feature("c12:entity-keys")
+		}
+	}
+}
+
 func runC12(r *rt.Runner) {
+	r.Do("entity-keys", func(c *rt.C) { c12EntityKeys(c) })
 	sys := c12Declarations(nil, true, 0)
 	const per = 20
 	for i := 0; i < len(sys); i += per {
